@@ -34,6 +34,7 @@ THEOREMS = [
     "worm_bias_sign_witness",
     "worm_not_stationary_witness",
     "worm_selection_asymmetry_witness",
+    "worm_absolute_tolerance_witness",
 ]
 
 RULE = ("graphs on 2..6 spins without self-loops: frustrated triangles, multi-edges (both orientations), rings, random edges, "
@@ -42,7 +43,9 @@ RULE = ("graphs on 2..6 spins without self-loops: frustrated triangles, multi-ed
         "on a third of the graphs incl. mixed signs and J = 0) replayed by the model from the "
         "recorded RNG words; acceptance probabilities of single spin/edge updates measured by bisection of the gen::<f64>() word; "
         "importance-table boundaries measured by bisection of the gen_range(0.0..total) word; exact one-step kernels of the real "
-        "code on 2..3 spins (spin, edge uniform/importance, worm) obtained by exploring the tree of RNG draws. A case is "
+        "code on 2..4 spins (spin, edge uniform/importance, worm) obtained by exploring the tree of RNG draws; a small-unit stream "
+        "(same graphs/trajectories with J, h times 2^-k and beta times 2^k, k in {20,36,45,50}, same RNG words: states must be "
+        "bit-identical; worm kernels, thresholds and kernels in those units); random interleavings of all public calls. A case is "
         "non-trivial when it executes at least one update; distinct = distinct (graph, beta, state, options, words).")
 
 
@@ -60,6 +63,7 @@ def main(ck):
             ("kernworm", "kernel-worm"),
             ("witness-worm", "worm-bias-sign-witness"),
             ("witness-asym", "worm-asymmetry-witness"),
+            ("witness-tiny", "worm-tolerance-witness"),
             ("regress-imp", "importance-regression"),
             ("regress-noedges", "no-edges-regression"),
         ]:
